@@ -1,6 +1,976 @@
-(* C12 - placeholder until Proofs/CollProofs.v is merged *)
-From Xeh Require Import Model.Prelude Model.Bits Model.Cell.
+(* C12 - Maps, vectors and strings obey collection laws under the language's equality.
 
-Theorem C12_insert_empty : forall k v, assoc_find (assoc_insert [] k v) k = match cell_cmp k k with Eq => Some v | _ => None end.
-Proof. intros k v. unfold assoc_find, assoc_insert. cbn. destruct (cell_cmp k k); reflexivity. Qed.
-Check C12_insert_empty : forall k v, assoc_find (assoc_insert [] k v) k = match cell_cmp k k with Eq => Some v | _ => None end.
+   Vocabulary (defined in Proofs/CellProofs.v, Proofs/CollProofs.v, Proofs/CollVec.v, Proofs/CollWords.v):
+     tagwf c      no tag wrapper directly wraps a tag wrapper, at any depth of c
+     NoNaN c      no NaN real and no opaque CAny value anywhere in c (tag maps excepted)
+     cell_ok c    every map inside c (tag maps included) is strictly sorted by cell_cmp with
+                  NoNaN keys, every bit-string is wf, and c is tagwf          (cell_ok_tagwf)
+     map_ok m     := cell_ok (CMap m);   keys_sorted m, keys_tagwf m: the two facts the map laws need
+     refines m l  := forall ok NaN-free k, assoc_find m k = al_find l k  (l: association list, equal? keys)
+     pairs_of l   the (key, value) pairs of a map literal's item list  v1 k1 v2 k2 ...
+     vec_index    the index a relative (possibly negative) position denotes
+     only_ds s s' only the data stack and the reverse log differ; has_args n s; room s rest *)
+From Xeh Require Import Model.Prelude Model.Bits Model.Codec Model.Cell Model.Lexer Model.Fmt
+                        Model.Vm Model.Words Proofs.BitsProofs Proofs.CellProofs Proofs.CollProofs
+                        Proofs.CollVec Proofs.CollWords.
+From Coq Require Import Sorting.Sorted Sorting.Permutation.
+Local Notation length := List.length.
+
+(* ================================================================== *)
+(* (1) the order and the equality                                      *)
+(* ================================================================== *)
+Theorem C12_ok_tagwf :
+  forall c, cell_ok c -> tagwf c.
+Proof. exact (@cell_ok_tagwf). Qed.
+Check C12_ok_tagwf :
+  forall c, cell_ok c -> tagwf c.
+
+(* cell_cmp is a total preorder on tagwf (hence on ok) cells *)
+Theorem C12_cmp_refl :
+  forall a, tagwf a -> cell_cmp a a = Eq.
+Proof. exact (@cmp_refl). Qed.
+Check C12_cmp_refl :
+  forall a, tagwf a -> cell_cmp a a = Eq.
+
+Theorem C12_cmp_antisym :
+  forall a b, tagwf a -> tagwf b -> cell_cmp a b = CompOpp (cell_cmp b a).
+Proof. exact (@cmp_antisym). Qed.
+Check C12_cmp_antisym :
+  forall a b, tagwf a -> tagwf b -> cell_cmp a b = CompOpp (cell_cmp b a).
+
+Theorem C12_cmp_trans :
+  forall a b c r, tagwf a -> tagwf b -> tagwf c ->
+    cell_cmp a b = r -> cell_cmp b c = r -> cell_cmp a c = r.
+Proof. exact (@cmp_trans). Qed.
+Check C12_cmp_trans :
+  forall a b c r, tagwf a -> tagwf b -> tagwf c ->
+    cell_cmp a b = r -> cell_cmp b c = r -> cell_cmp a c = r.
+
+Theorem C12_cmp_lt_trans :
+  forall a b c, tagwf a -> tagwf b -> tagwf c ->
+    cell_cmp a b = Lt -> cell_cmp b c = Lt -> cell_cmp a c = Lt.
+Proof. exact (@cmp_lt_trans). Qed.
+Check C12_cmp_lt_trans :
+  forall a b c, tagwf a -> tagwf b -> tagwf c ->
+    cell_cmp a b = Lt -> cell_cmp b c = Lt -> cell_cmp a c = Lt.
+
+(* cells that compare Eq are interchangeable *)
+Theorem C12_cmp_eq_cong :
+  forall a b c, tagwf a -> tagwf b -> tagwf c ->
+    cell_cmp a b = Eq -> cell_cmp a c = cell_cmp b c.
+Proof. exact (@cmp_eq_cong). Qed.
+Check C12_cmp_eq_cong :
+  forall a b c, tagwf a -> tagwf b -> tagwf c ->
+    cell_cmp a b = Eq -> cell_cmp a c = cell_cmp b c.
+
+(* keys are the same precisely when equal? says so *)
+Theorem C12_cmp_eq :
+  forall a b, cell_ok a -> cell_ok b -> NoNaN a -> NoNaN b ->
+    (cell_cmp a b = Eq <-> cell_eqb a b = true).
+Proof. exact (@cmp_eq). Qed.
+Check C12_cmp_eq :
+  forall a b, cell_ok a -> cell_ok b -> NoNaN a -> NoNaN b ->
+    (cell_cmp a b = Eq <-> cell_eqb a b = true).
+
+(* equal? is an equivalence on ok NaN-free cells *)
+Theorem C12_eqb_refl :
+  forall a, cell_ok a -> NoNaN a -> cell_eqb a a = true.
+Proof. exact (@eqb_refl). Qed.
+Check C12_eqb_refl :
+  forall a, cell_ok a -> NoNaN a -> cell_eqb a a = true.
+
+Theorem C12_eqb_sym :
+  forall a b, cell_ok a -> cell_ok b -> NoNaN a -> NoNaN b ->
+    cell_eqb a b = cell_eqb b a.
+Proof. exact (@eqb_sym). Qed.
+Check C12_eqb_sym :
+  forall a b, cell_ok a -> cell_ok b -> NoNaN a -> NoNaN b ->
+    cell_eqb a b = cell_eqb b a.
+
+Theorem C12_eqb_trans :
+  forall a b c, cell_ok a -> cell_ok b -> cell_ok c -> NoNaN a -> NoNaN b -> NoNaN c ->
+    cell_eqb a b = true -> cell_eqb b c = true -> cell_eqb a c = true.
+Proof. exact (@eqb_trans). Qed.
+Check C12_eqb_trans :
+  forall a b c, cell_ok a -> cell_ok b -> cell_ok c -> NoNaN a -> NoNaN b -> NoNaN c ->
+    cell_eqb a b = true -> cell_eqb b c = true -> cell_eqb a c = true.
+
+(* keys of different types never collide: the type rank decides *)
+Theorem C12_cmp_rank :
+  forall a b, tagwf a -> tagwf b ->
+    rank (value a) <> rank (value b) -> cell_cmp a b = Nat.compare (rank (value a)) (rank (value b)).
+Proof. exact (@cmp_rank). Qed.
+Check C12_cmp_rank :
+  forall a b, tagwf a -> tagwf b ->
+    rank (value a) <> rank (value b) -> cell_cmp a b = Nat.compare (rank (value a)) (rank (value b)).
+
+Theorem C12_cmp_rank_neq :
+  forall a b, tagwf a -> tagwf b ->
+    rank (value a) <> rank (value b) -> cell_cmp a b <> Eq.
+Proof. exact (@cmp_rank_neq). Qed.
+Check C12_cmp_rank_neq :
+  forall a b, tagwf a -> tagwf b ->
+    rank (value a) <> rank (value b) -> cell_cmp a b <> Eq.
+
+Theorem C12_eqb_rank :
+  forall a b, tagwf a -> tagwf b ->
+    rank (value a) <> rank (value b) -> cell_eqb a b = false.
+Proof. exact (@eqb_rank). Qed.
+Check C12_eqb_rank :
+  forall a b, tagwf a -> tagwf b ->
+    rank (value a) <> rank (value b) -> cell_eqb a b = false.
+
+(* tags are ignored at every level (scmp a b := cell_cmp (strip a) (strip b)) *)
+Theorem C12_cmp_strip :
+  forall a b, tagwf a -> tagwf b -> cell_cmp a b = scmp a b.
+Proof. exact (@cmp_strip). Qed.
+Check C12_cmp_strip :
+  forall a b, tagwf a -> tagwf b -> cell_cmp a b = scmp a b.
+
+(* the hypotheses are needed: NaN and opaque values are not equal to themselves although they
+   compare Eq, and a doubly wrapped value breaks antisymmetry *)
+Example C12_nan_not_equal :
+  f64_is_nan nan_bits = true /\
+  cell_cmp (CReal nan_bits) (CReal nan_bits) = Eq /\ cell_eqb (CReal nan_bits) (CReal nan_bits) = false.
+Proof. exact nan_not_equal. Qed.
+Example C12_any_not_equal : cell_cmp CAny CAny = Eq /\ cell_eqb CAny CAny = false.
+Proof. exact any_not_equal. Qed.
+Example C12_nested_tags_break_order :
+  let b := CTag [] (CTag [] (CInt 1)) in
+  cell_cmp (CInt 1) b = Lt /\ cell_cmp b (CInt 1) = Eq /\ cell_eqb (CInt 1) b = false /\ cell_eqb b (CInt 1) = true.
+Proof. exact nested_tags_break_order. Qed.
+
+(* ================================================================== *)
+(* (2) maps refine an association list                                 *)
+(* ================================================================== *)
+(* get (insert m k v) k' = if equal? k k' then v else get m k' *)
+Theorem C12_find_insert :
+  forall m k v k',
+    map_ok m -> cell_ok k -> NoNaN k -> cell_ok k' -> NoNaN k' ->
+    assoc_find (assoc_insert m k v) k' = if cell_eqb k k' then Some v else assoc_find m k'.
+Proof. exact (@find_insert). Qed.
+Check C12_find_insert :
+  forall m k v k',
+    map_ok m -> cell_ok k -> NoNaN k -> cell_ok k' -> NoNaN k' ->
+    assoc_find (assoc_insert m k v) k' = if cell_eqb k k' then Some v else assoc_find m k'.
+
+Theorem C12_find_remove :
+  forall m k k',
+    map_ok m -> cell_ok k -> NoNaN k -> cell_ok k' -> NoNaN k' ->
+    assoc_find (assoc_remove m k) k' = if cell_eqb k k' then None else assoc_find m k'.
+Proof. exact (@find_remove). Qed.
+Check C12_find_remove :
+  forall m k k',
+    map_ok m -> cell_ok k -> NoNaN k -> cell_ok k' -> NoNaN k' ->
+    assoc_find (assoc_remove m k) k' = if cell_eqb k k' then None else assoc_find m k'.
+
+(* the same laws for ALL tagwf keys (NaN included), with the order deciding sameness *)
+Theorem C12_find_insert_cmp :
+  forall m k v k', keys_tagwf m -> tagwf k -> tagwf k' ->
+    assoc_find (assoc_insert m k v) k' =
+    if cmp_is_eq (cell_cmp k k') then Some v else assoc_find m k'.
+Proof. exact (@find_insert_cmp). Qed.
+Check C12_find_insert_cmp :
+  forall m k v k', keys_tagwf m -> tagwf k -> tagwf k' ->
+    assoc_find (assoc_insert m k v) k' =
+    if cmp_is_eq (cell_cmp k k') then Some v else assoc_find m k'.
+
+Theorem C12_find_remove_cmp :
+  forall m k k', keys_tagwf m -> keys_sorted m -> tagwf k -> tagwf k' ->
+    assoc_find (assoc_remove m k) k' =
+    if cmp_is_eq (cell_cmp k k') then None else assoc_find m k'.
+Proof. exact (@find_remove_cmp). Qed.
+Check C12_find_remove_cmp :
+  forall m k k', keys_tagwf m -> keys_sorted m -> tagwf k -> tagwf k' ->
+    assoc_find (assoc_remove m k) k' =
+    if cmp_is_eq (cell_cmp k k') then None else assoc_find m k'.
+
+(* insert / remove keep the map well formed (sorted, no duplicate keys) *)
+Theorem C12_insert_ok :
+  forall m k v, map_ok m -> cell_ok k -> NoNaN k -> cell_ok v -> map_ok (assoc_insert m k v).
+Proof. exact (@insert_ok). Qed.
+Check C12_insert_ok :
+  forall m k v, map_ok m -> cell_ok k -> NoNaN k -> cell_ok v -> map_ok (assoc_insert m k v).
+
+Theorem C12_remove_ok :
+  forall m k, map_ok m -> cell_ok k -> map_ok (assoc_remove m k).
+Proof. exact (@remove_ok). Qed.
+Check C12_remove_ok :
+  forall m k, map_ok m -> cell_ok k -> map_ok (assoc_remove m k).
+
+Theorem C12_insert_sorted :
+  forall m k v, keys_tagwf m -> tagwf k -> keys_sorted m -> keys_sorted (assoc_insert m k v).
+Proof. exact (@insert_sorted). Qed.
+Check C12_insert_sorted :
+  forall m k v, keys_tagwf m -> tagwf k -> keys_sorted m -> keys_sorted (assoc_insert m k v).
+
+Theorem C12_remove_sorted :
+  forall m k, keys_tagwf m -> tagwf k -> keys_sorted m -> keys_sorted (assoc_remove m k).
+Proof. exact (@remove_sorted). Qed.
+Check C12_remove_sorted :
+  forall m k, keys_tagwf m -> tagwf k -> keys_sorted m -> keys_sorted (assoc_remove m k).
+
+(* size: a new key grows the map by one, an existing key keeps the size *)
+Theorem C12_insert_length :
+  forall m k v, keys_tagwf m -> keys_sorted m -> tagwf k ->
+    length (assoc_insert m k v) =
+    match assoc_find m k with Some _ => length m | None => S (length m) end.
+Proof. exact (@insert_length). Qed.
+Check C12_insert_length :
+  forall m k v, keys_tagwf m -> keys_sorted m -> tagwf k ->
+    length (assoc_insert m k v) =
+    match assoc_find m k with Some _ => length m | None => S (length m) end.
+
+Theorem C12_remove_length :
+  forall m k, keys_tagwf m -> keys_sorted m -> tagwf k ->
+    length (assoc_remove m k) =
+    match assoc_find m k with Some _ => pred (length m) | None => length m end.
+Proof. exact (@remove_length). Qed.
+Check C12_remove_length :
+  forall m k, keys_tagwf m -> keys_sorted m -> tagwf k ->
+    length (assoc_remove m k) =
+    match assoc_find m k with Some _ => pred (length m) | None => length m end.
+
+(* a map literal is the fold of the inserts of its pairs ... *)
+Theorem C12_pairs_insert_fold :
+  forall l m,
+    pairs_insert l m = fold_left (fun m kv => assoc_insert m (fst kv) (snd kv)) (pairs_of l) m.
+Proof. exact (@pairs_insert_fold). Qed.
+Check C12_pairs_insert_fold :
+  forall l m,
+    pairs_insert l m = fold_left (fun m kv => assoc_insert m (fst kv) (snd kv)) (pairs_of l) m.
+
+(* ... so the LAST binding of a key wins *)
+Theorem C12_pairs_insert_find :
+  forall l m k, keys_tagwf (pairs_of l) -> keys_tagwf m -> tagwf k ->
+    assoc_find (pairs_insert l m) k =
+    match find (fun kv => cmp_is_eq (cell_cmp (fst kv) k)) (rev (pairs_of l)) with
+    | Some kv => Some (snd kv)
+    | None => assoc_find m k
+    end.
+Proof. exact (@pairs_insert_find). Qed.
+Check C12_pairs_insert_find :
+  forall l m k, keys_tagwf (pairs_of l) -> keys_tagwf m -> tagwf k ->
+    assoc_find (pairs_insert l m) k =
+    match find (fun kv => cmp_is_eq (cell_cmp (fst kv) k)) (rev (pairs_of l)) with
+    | Some kv => Some (snd kv)
+    | None => assoc_find m k
+    end.
+
+Theorem C12_pairs_insert_find_eqb :
+  forall l k,
+    Forall (fun kv => cell_ok (fst kv) /\ NoNaN (fst kv)) (pairs_of l) -> cell_ok k -> NoNaN k ->
+    assoc_find (pairs_insert l []) k =
+    option_map snd (find (fun kv => cell_eqb (fst kv) k) (rev (pairs_of l))).
+Proof. exact (@pairs_insert_find_eqb). Qed.
+Check C12_pairs_insert_find_eqb :
+  forall l k,
+    Forall (fun kv => cell_ok (fst kv) /\ NoNaN (fst kv)) (pairs_of l) -> cell_ok k -> NoNaN k ->
+    assoc_find (pairs_insert l []) k =
+    option_map snd (find (fun kv => cell_eqb (fst kv) k) (rev (pairs_of l))).
+
+Theorem C12_pairs_insert_ok :
+  forall l m,
+    Forall (fun kv => cell_ok (fst kv) /\ NoNaN (fst kv) /\ cell_ok (snd kv)) (pairs_of l) ->
+    map_ok m -> map_ok (pairs_insert l m).
+Proof. exact (@pairs_insert_ok). Qed.
+Check C12_pairs_insert_ok :
+  forall l m,
+    Forall (fun kv => cell_ok (fst kv) /\ NoNaN (fst kv) /\ cell_ok (snd kv)) (pairs_of l) ->
+    map_ok m -> map_ok (pairs_insert l m).
+
+(* refinement: the map operations simulate an association list with equal? keys
+   (al_find / al_insert / al_remove: newest binding first, looked up with cell_eqb) *)
+Theorem C12_refines_nil :
+  refines [] [].
+Proof. exact (@refines_nil). Qed.
+Check C12_refines_nil :
+  refines [] [].
+
+Theorem C12_refines_insert :
+  forall m l k v, map_ok m -> cell_ok k -> NoNaN k ->
+    refines m l -> refines (assoc_insert m k v) (al_insert l k v).
+Proof. exact (@refines_insert). Qed.
+Check C12_refines_insert :
+  forall m l k v, map_ok m -> cell_ok k -> NoNaN k ->
+    refines m l -> refines (assoc_insert m k v) (al_insert l k v).
+
+Theorem C12_refines_remove :
+  forall m l k, map_ok m -> al_ok l -> cell_ok k -> NoNaN k ->
+    refines m l -> refines (assoc_remove m k) (al_remove l k).
+Proof. exact (@refines_remove). Qed.
+Check C12_refines_remove :
+  forall m l k, map_ok m -> al_ok l -> cell_ok k -> NoNaN k ->
+    refines m l -> refines (assoc_remove m k) (al_remove l k).
+
+Theorem C12_refines_literal :
+  forall l,
+    Forall (fun kv => cell_ok (fst kv) /\ NoNaN (fst kv)) (pairs_of l) ->
+    refines (pairs_insert l []) (rev (pairs_of l)).
+Proof. exact (@refines_literal). Qed.
+Check C12_refines_literal :
+  forall l,
+    Forall (fun kv => cell_ok (fst kv) /\ NoNaN (fst kv)) (pairs_of l) ->
+    refines (pairs_insert l []) (rev (pairs_of l)).
+
+Theorem C12_al_ok_insert :
+  forall l k v, al_ok l -> cell_ok k -> NoNaN k -> al_ok (al_insert l k v).
+Proof. exact (@al_ok_insert). Qed.
+Check C12_al_ok_insert :
+  forall l k v, al_ok l -> cell_ok k -> NoNaN k -> al_ok (al_insert l k v).
+
+Theorem C12_al_ok_remove :
+  forall l k, al_ok l -> al_ok (al_remove l k).
+Proof. exact (@al_ok_remove). Qed.
+Check C12_al_ok_remove :
+  forall l k, al_ok l -> al_ok (al_remove l k).
+
+(* iteration order = the list: it enumerates exactly the bindings, each key once *)
+Theorem C12_find_in :
+  forall m k v, assoc_find m k = Some v -> exists k', In (k', v) m /\ cell_cmp k' k = Eq.
+Proof. exact (@find_in). Qed.
+Check C12_find_in :
+  forall m k v, assoc_find m k = Some v -> exists k', In (k', v) m /\ cell_cmp k' k = Eq.
+
+Theorem C12_in_find :
+  forall m k0 v k, keys_tagwf m -> keys_sorted m -> tagwf k ->
+    In (k0, v) m -> cell_cmp k0 k = Eq -> assoc_find m k = Some v.
+Proof. exact (@in_find). Qed.
+Check C12_in_find :
+  forall m k0 v k, keys_tagwf m -> keys_sorted m -> tagwf k ->
+    In (k0, v) m -> cell_cmp k0 k = Eq -> assoc_find m k = Some v.
+
+Theorem C12_keys_once :
+  forall m i j p q, keys_tagwf m -> keys_sorted m ->
+    nth_error m i = Some p -> nth_error m j = Some q -> cell_cmp (fst p) (fst q) = Eq -> i = j.
+Proof. exact (@keys_once). Qed.
+Check C12_keys_once :
+  forall m i j p q, keys_tagwf m -> keys_sorted m ->
+    nth_error m i = Some p -> nth_error m j = Some q -> cell_cmp (fst p) (fst q) = Eq -> i = j.
+
+(* ================================================================== *)
+(* (3) vectors and strings                                             *)
+(* ================================================================== *)
+(* nth: index i or len+i, for EVERY integer *)
+Theorem C12_relative_index_spec :
+  forall (len : nat) (i : Z),
+    relative_index len i =
+    if (0 <=? i)%Z && (i <? Z.of_nat len)%Z then Some (Z.to_nat i)
+    else if (- Z.of_nat len <=? i)%Z && (i <? 0)%Z then Some (Z.to_nat (Z.of_nat len + i))
+    else None.
+Proof. exact (@relative_index_spec). Qed.
+Check C12_relative_index_spec :
+  forall (len : nat) (i : Z),
+    relative_index len i =
+    if (0 <=? i)%Z && (i <? Z.of_nat len)%Z then Some (Z.to_nat i)
+    else if (- Z.of_nat len <=? i)%Z && (i <? 0)%Z then Some (Z.to_nat (Z.of_nat len + i))
+    else None.
+
+Theorem C12_vector_get_spec :
+  forall v i s,
+    vector_get v i s =
+    match vec_index (length v) i with
+    | Some n => match nth_error v n with Some c => ROk c s | None => RErr EBounds None s end
+    | None => RErr EBounds None s
+    end.
+Proof. exact (@vector_get_spec). Qed.
+Check C12_vector_get_spec :
+  forall v i s,
+    vector_get v i s =
+    match vec_index (length v) i with
+    | Some n => match nth_error v n with Some c => ROk c s | None => RErr EBounds None s end
+    | None => RErr EBounds None s
+    end.
+
+Theorem C12_vec_index_nth :
+  forall {A} (v : list A) i n,
+    vec_index (length v) i = Some n -> exists c, nth_error v n = Some c.
+Proof. exact (@vec_index_nth). Qed.
+Check (@C12_vec_index_nth) :
+  forall {A} (v : list A) i n,
+    vec_index (length v) i = Some n -> exists c, nth_error v n = Some c.
+
+(* slice: clamping, for every pair of integers *)
+Theorem C12_slicing_index_spec :
+  forall (i : Z) (len : nat),
+    Z.of_nat (slicing_index i len) =
+    if (i <? 0)%Z then Z.max 0 (Z.of_nat len + i) else Z.min i (Z.of_nat len).
+Proof. exact (@slicing_index_spec). Qed.
+Check C12_slicing_index_spec :
+  forall (i : Z) (len : nat),
+    Z.of_nat (slicing_index i len) =
+    if (i <? 0)%Z then Z.max 0 (Z.of_nat len + i) else Z.min i (Z.of_nat len).
+
+Theorem C12_slice_list_spec :
+  forall A (l : list A) st en,
+    slice_list l st en =
+    let a := slicing_index st (length l) in
+    let b := slicing_index en (length l) in
+    firstn (b - a) (skipn a l).
+Proof. exact (@slice_list_spec). Qed.
+Check C12_slice_list_spec :
+  forall A (l : list A) st en,
+    slice_list l st en =
+    let a := slicing_index st (length l) in
+    let b := slicing_index en (length l) in
+    firstn (b - a) (skipn a l).
+
+Theorem C12_slice_list_length :
+  forall A (l : list A) st en,
+    length (slice_list l st en) =
+    (slicing_index en (length l) - slicing_index st (length l))%nat.
+Proof. exact (@slice_list_length). Qed.
+Check C12_slice_list_length :
+  forall A (l : list A) st en,
+    length (slice_list l st en) =
+    (slicing_index en (length l) - slicing_index st (length l))%nat.
+
+Theorem C12_slice_list_full :
+  forall A (l : list A), slice_list l 0 (Z.of_nat (length l)) = l.
+Proof. exact (@slice_list_full). Qed.
+Check C12_slice_list_full :
+  forall A (l : list A), slice_list l 0 (Z.of_nat (length l)) = l.
+
+Theorem C12_slice_list_empty_idx :
+  forall A (l : list A) st en,
+    (slicing_index en (length l) <= slicing_index st (length l))%nat -> slice_list l st en = [].
+Proof. exact (@slice_list_empty_idx). Qed.
+Check C12_slice_list_empty_idx :
+  forall A (l : list A) st en,
+    (slicing_index en (length l) <= slicing_index st (length l))%nat -> slice_list l st en = [].
+
+(* sort: an ascending, stable permutation *)
+Theorem C12_sort_cells_perm :
+  forall l, Permutation (sort_cells l) l.
+Proof. exact (@sort_cells_perm). Qed.
+Check C12_sort_cells_perm :
+  forall l, Permutation (sort_cells l) l.
+
+Theorem C12_sort_cells_sorted :
+  forall l, Forall tagwf l ->
+    StronglySorted (fun a b => cell_cmp a b <> Gt) (sort_cells l).
+Proof. exact (@sort_cells_sorted). Qed.
+Check C12_sort_cells_sorted :
+  forall l, Forall tagwf l ->
+    StronglySorted (fun a b => cell_cmp a b <> Gt) (sort_cells l).
+
+Theorem C12_sort_cells_stable :
+  forall l k, Forall tagwf l -> tagwf k ->
+    filter (fun y => cmp_is_eq (cell_cmp y k)) (sort_cells l) =
+    filter (fun y => cmp_is_eq (cell_cmp y k)) l.
+Proof. exact (@sort_cells_stable). Qed.
+Check C12_sort_cells_stable :
+  forall l k, Forall tagwf l -> tagwf k ->
+    filter (fun y => cmp_is_eq (cell_cmp y k)) (sort_cells l) =
+    filter (fun y => cmp_is_eq (cell_cmp y k)) l.
+
+Theorem C12_sort_cells_length :
+  forall l, length (sort_cells l) = length l.
+Proof. exact (@sort_cells_length). Qed.
+Check C12_sort_cells_length :
+  forall l, length (sort_cells l) = length l.
+
+Theorem C12_sort_cells_idem :
+  forall l, Forall tagwf l -> sort_cells (sort_cells l) = sort_cells l.
+Proof. exact (@sort_cells_idem). Qed.
+Check C12_sort_cells_idem :
+  forall l, Forall tagwf l -> sort_cells (sort_cells l) = sort_cells l.
+
+(* concat / join of a vector of strings is String.concat with the separator *)
+Theorem C12_join_cells_strings :
+  forall f sep ts,
+    join_cells (S f) sep (map CStr ts) = Some (String.concat (sep_of sep) ts).
+Proof. exact (@join_cells_strings). Qed.
+Check C12_join_cells_strings :
+  forall f sep ts,
+    join_cells (S f) sep (map CStr ts) = Some (String.concat (sep_of sep) ts).
+
+(* ================================================================== *)
+(* (4) the words compute exactly these functions                       *)
+(* ================================================================== *)
+(* get *)
+Theorem C12_w_get_map_ok :
+  forall s key c rest m,
+    ds s = key :: c :: rest -> has_args 2 s -> value c = CMap m -> room s rest ->
+    exists s', w_get s = ROk tt s' /\
+               ds s' = (match assoc_find m key with Some x => x | None => CNil end) :: rest /\
+               only_ds s s'.
+Proof. exact (@w_get_map_ok). Qed.
+Check C12_w_get_map_ok :
+  forall s key c rest m,
+    ds s = key :: c :: rest -> has_args 2 s -> value c = CMap m -> room s rest ->
+    exists s', w_get s = ROk tt s' /\
+               ds s' = (match assoc_find m key with Some x => x | None => CNil end) :: rest /\
+               only_ds s s'.
+
+Theorem C12_w_get_vec_ok :
+  forall s key c rest v i,
+    ds s = key :: c :: rest -> has_args 2 s -> value c = CVec v -> value key = CInt i ->
+    in_usize i = true -> (i < Z.of_nat (length v))%Z -> room s rest ->
+    exists x s', nth_error v (Z.to_nat i) = Some x /\
+                 w_get s = ROk tt s' /\ ds s' = x :: rest /\ only_ds s s'.
+Proof. exact (@w_get_vec_ok). Qed.
+Check C12_w_get_vec_ok :
+  forall s key c rest v i,
+    ds s = key :: c :: rest -> has_args 2 s -> value c = CVec v -> value key = CInt i ->
+    in_usize i = true -> (i < Z.of_nat (length v))%Z -> room s rest ->
+    exists x s', nth_error v (Z.to_nat i) = Some x /\
+                 w_get s = ROk tt s' /\ ds s' = x :: rest /\ only_ds s s'.
+
+Theorem C12_w_get_err_type :
+  forall s key c rest,
+    ds s = key :: c :: rest -> has_args 2 s ->
+    (forall v, value c <> CVec v) -> (forall m, value c <> CMap m) ->
+    exists s', w_get s = RErr EType (Some (value c)) s' /\ ds s' = rest /\ only_ds s s'.
+Proof. exact (@w_get_err_type). Qed.
+Check C12_w_get_err_type :
+  forall s key c rest,
+    ds s = key :: c :: rest -> has_args 2 s ->
+    (forall v, value c <> CVec v) -> (forall m, value c <> CMap m) ->
+    exists s', w_get s = RErr EType (Some (value c)) s' /\ ds s' = rest /\ only_ds s s'.
+
+Theorem C12_w_get_vec_err_bounds :
+  forall s key c rest v i,
+    ds s = key :: c :: rest -> has_args 2 s -> value c = CVec v -> value key = CInt i ->
+    in_usize i = true -> (Z.of_nat (length v) <= i)%Z ->
+    exists s', w_get s = RErr EBounds None s' /\ ds s' = rest /\ only_ds s s'.
+Proof. exact (@w_get_vec_err_bounds). Qed.
+Check C12_w_get_vec_err_bounds :
+  forall s key c rest v i,
+    ds s = key :: c :: rest -> has_args 2 s -> value c = CVec v -> value key = CInt i ->
+    in_usize i = true -> (Z.of_nat (length v) <= i)%Z ->
+    exists s', w_get s = RErr EBounds None s' /\ ds s' = rest /\ only_ds s s'.
+
+Theorem C12_w_get_vec_err_index :
+  forall s key c rest v i,
+    ds s = key :: c :: rest -> has_args 2 s -> value c = CVec v -> value key = CInt i -> (i < 0)%Z ->
+    exists s', w_get s = RErr EType (Some key) s' /\ ds s' = rest /\ only_ds s s'.
+Proof. exact (@w_get_vec_err_index). Qed.
+Check C12_w_get_vec_err_index :
+  forall s key c rest v i,
+    ds s = key :: c :: rest -> has_args 2 s -> value c = CVec v -> value key = CInt i -> (i < 0)%Z ->
+    exists s', w_get s = RErr EType (Some key) s' /\ ds s' = rest /\ only_ds s s'.
+
+Theorem C12_w_get_vec_err_overflow :
+  forall s key c rest v i,
+    ds s = key :: c :: rest -> has_args 2 s -> value c = CVec v -> value key = CInt i -> (two64 <= i)%Z ->
+    exists s', w_get s = RErr EOverflow None s' /\ ds s' = rest /\ only_ds s s'.
+Proof. exact (@w_get_vec_err_overflow). Qed.
+Check C12_w_get_vec_err_overflow :
+  forall s key c rest v i,
+    ds s = key :: c :: rest -> has_args 2 s -> value c = CVec v -> value key = CInt i -> (two64 <= i)%Z ->
+    exists s', w_get s = RErr EOverflow None s' /\ ds s' = rest /\ only_ds s s'.
+
+Theorem C12_w_get_vec_err_keytype :
+  forall s key c rest v,
+    ds s = key :: c :: rest -> has_args 2 s -> value c = CVec v -> (forall i, value key <> CInt i) ->
+    exists s', w_get s = RErr EType (Some (value key)) s' /\ ds s' = rest /\ only_ds s s'.
+Proof. exact (@w_get_vec_err_keytype). Qed.
+Check C12_w_get_vec_err_keytype :
+  forall s key c rest v,
+    ds s = key :: c :: rest -> has_args 2 s -> value c = CVec v -> (forall i, value key <> CInt i) ->
+    exists s', w_get s = RErr EType (Some (value key)) s' /\ ds s' = rest /\ only_ds s s'.
+
+Theorem C12_w_get_underflow :
+  forall s, ~ has_args 1 s -> w_get s = RErr EUnderflow None s.
+Proof. exact (@w_get_underflow). Qed.
+Check C12_w_get_underflow :
+  forall s, ~ has_args 1 s -> w_get s = RErr EUnderflow None s.
+
+(* insert *)
+Theorem C12_w_insert_ok :
+  forall s key val c rest m,
+    ds s = key :: val :: c :: rest -> has_args 3 s -> value c = CMap m -> room s rest ->
+    exists s', w_insert s = ROk tt s' /\ ds s' = CMap (assoc_insert m key val) :: rest /\ only_ds s s'.
+Proof. exact (@w_insert_ok). Qed.
+Check C12_w_insert_ok :
+  forall s key val c rest m,
+    ds s = key :: val :: c :: rest -> has_args 3 s -> value c = CMap m -> room s rest ->
+    exists s', w_insert s = ROk tt s' /\ ds s' = CMap (assoc_insert m key val) :: rest /\ only_ds s s'.
+
+Theorem C12_w_insert_err_type :
+  forall s key val c rest,
+    ds s = key :: val :: c :: rest -> has_args 3 s -> (forall m, value c <> CMap m) ->
+    exists s', w_insert s = RErr EType (Some (value c)) s' /\ ds s' = rest /\ only_ds s s'.
+Proof. exact (@w_insert_err_type). Qed.
+Check C12_w_insert_err_type :
+  forall s key val c rest,
+    ds s = key :: val :: c :: rest -> has_args 3 s -> (forall m, value c <> CMap m) ->
+    exists s', w_insert s = RErr EType (Some (value c)) s' /\ ds s' = rest /\ only_ds s s'.
+
+Theorem C12_w_insert_underflow :
+  forall s, ~ has_args 1 s -> w_insert s = RErr EUnderflow None s.
+Proof. exact (@w_insert_underflow). Qed.
+Check C12_w_insert_underflow :
+  forall s, ~ has_args 1 s -> w_insert s = RErr EUnderflow None s.
+
+(* remove *)
+Theorem C12_w_remove_ok :
+  forall s key c rest m,
+    ds s = key :: c :: rest -> has_args 2 s -> value c = CMap m -> room s rest ->
+    exists s', w_remove s = ROk tt s' /\ ds s' = CMap (assoc_remove m key) :: rest /\ only_ds s s'.
+Proof. exact (@w_remove_ok). Qed.
+Check C12_w_remove_ok :
+  forall s key c rest m,
+    ds s = key :: c :: rest -> has_args 2 s -> value c = CMap m -> room s rest ->
+    exists s', w_remove s = ROk tt s' /\ ds s' = CMap (assoc_remove m key) :: rest /\ only_ds s s'.
+
+Theorem C12_w_remove_err_type :
+  forall s key c rest,
+    ds s = key :: c :: rest -> has_args 2 s -> (forall m, value c <> CMap m) ->
+    exists s', w_remove s = RErr EType (Some (value c)) s' /\ ds s' = rest /\ only_ds s s'.
+Proof. exact (@w_remove_err_type). Qed.
+Check C12_w_remove_err_type :
+  forall s key c rest,
+    ds s = key :: c :: rest -> has_args 2 s -> (forall m, value c <> CMap m) ->
+    exists s', w_remove s = RErr EType (Some (value c)) s' /\ ds s' = rest /\ only_ds s s'.
+
+Theorem C12_w_remove_underflow :
+  forall s, ~ has_args 1 s -> w_remove s = RErr EUnderflow None s.
+Proof. exact (@w_remove_underflow). Qed.
+Check C12_w_remove_underflow :
+  forall s, ~ has_args 1 s -> w_remove s = RErr EUnderflow None s.
+
+(* nth *)
+Theorem C12_w_nth_ok :
+  forall s i c rest v z n x,
+    ds s = i :: c :: rest -> has_args 2 s -> value i = CInt z -> in_isize z = true ->
+    value c = CVec v -> vec_index (length v) z = Some n -> nth_error v n = Some x -> room s rest ->
+    exists s', w_nth s = ROk tt s' /\ ds s' = x :: rest /\ only_ds s s'.
+Proof. exact (@w_nth_ok). Qed.
+Check C12_w_nth_ok :
+  forall s i c rest v z n x,
+    ds s = i :: c :: rest -> has_args 2 s -> value i = CInt z -> in_isize z = true ->
+    value c = CVec v -> vec_index (length v) z = Some n -> nth_error v n = Some x -> room s rest ->
+    exists s', w_nth s = ROk tt s' /\ ds s' = x :: rest /\ only_ds s s'.
+
+Theorem C12_w_nth_err_bounds :
+  forall s i c rest v z,
+    ds s = i :: c :: rest -> has_args 2 s -> value i = CInt z -> in_isize z = true ->
+    value c = CVec v -> vec_index (length v) z = None ->
+    exists s', w_nth s = RErr EBounds None s' /\ ds s' = rest /\ only_ds s s'.
+Proof. exact (@w_nth_err_bounds). Qed.
+Check C12_w_nth_err_bounds :
+  forall s i c rest v z,
+    ds s = i :: c :: rest -> has_args 2 s -> value i = CInt z -> in_isize z = true ->
+    value c = CVec v -> vec_index (length v) z = None ->
+    exists s', w_nth s = RErr EBounds None s' /\ ds s' = rest /\ only_ds s s'.
+
+Theorem C12_w_nth_err_overflow :
+  forall s i r z,
+    ds s = i :: r -> has_args 1 s -> value i = CInt z -> in_isize z = false ->
+    exists s', w_nth s = RErr EOverflow None s' /\ ds s' = r /\ only_ds s s'.
+Proof. exact (@w_nth_err_overflow). Qed.
+Check C12_w_nth_err_overflow :
+  forall s i r z,
+    ds s = i :: r -> has_args 1 s -> value i = CInt z -> in_isize z = false ->
+    exists s', w_nth s = RErr EOverflow None s' /\ ds s' = r /\ only_ds s s'.
+
+Theorem C12_w_nth_err_index_type :
+  forall s i r,
+    ds s = i :: r -> has_args 1 s -> (forall z, value i <> CInt z) ->
+    exists s', w_nth s = RErr EType (Some (value i)) s' /\ ds s' = r /\ only_ds s s'.
+Proof. exact (@w_nth_err_index_type). Qed.
+Check C12_w_nth_err_index_type :
+  forall s i r,
+    ds s = i :: r -> has_args 1 s -> (forall z, value i <> CInt z) ->
+    exists s', w_nth s = RErr EType (Some (value i)) s' /\ ds s' = r /\ only_ds s s'.
+
+Theorem C12_w_nth_err_type :
+  forall s i c rest z,
+    ds s = i :: c :: rest -> has_args 2 s -> value i = CInt z -> in_isize z = true ->
+    (forall v, value c <> CVec v) ->
+    exists s', w_nth s = RErr EType (Some (value c)) s' /\ ds s' = rest /\ only_ds s s'.
+Proof. exact (@w_nth_err_type). Qed.
+Check C12_w_nth_err_type :
+  forall s i c rest z,
+    ds s = i :: c :: rest -> has_args 2 s -> value i = CInt z -> in_isize z = true ->
+    (forall v, value c <> CVec v) ->
+    exists s', w_nth s = RErr EType (Some (value c)) s' /\ ds s' = rest /\ only_ds s s'.
+
+Theorem C12_w_nth_underflow :
+  forall s, ~ has_args 1 s -> w_nth s = RErr EUnderflow None s.
+Proof. exact (@w_nth_underflow). Qed.
+Check C12_w_nth_underflow :
+  forall s, ~ has_args 1 s -> w_nth s = RErr EUnderflow None s.
+
+(* push, reverse, length, sort, slice *)
+Theorem C12_w_push_ok :
+  forall s c x rest v,
+    ds s = c :: x :: rest -> has_args 2 s -> value c = CVec v -> room s rest ->
+    exists s', w_push s = ROk tt s' /\ ds s' = CVec (v ++ [x]) :: rest /\ only_ds s s'.
+Proof. exact (@w_push_ok). Qed.
+Check C12_w_push_ok :
+  forall s c x rest v,
+    ds s = c :: x :: rest -> has_args 2 s -> value c = CVec v -> room s rest ->
+    exists s', w_push s = ROk tt s' /\ ds s' = CVec (v ++ [x]) :: rest /\ only_ds s s'.
+
+Theorem C12_w_reverse_ok :
+  forall s c rest v,
+    ds s = c :: rest -> has_args 1 s -> value c = CVec v -> room s rest ->
+    exists s', w_reverse s = ROk tt s' /\ ds s' = CVec (rev v) :: rest /\ only_ds s s'.
+Proof. exact (@w_reverse_ok). Qed.
+Check C12_w_reverse_ok :
+  forall s c rest v,
+    ds s = c :: rest -> has_args 1 s -> value c = CVec v -> room s rest ->
+    exists s', w_reverse s = ROk tt s' /\ ds s' = CVec (rev v) :: rest /\ only_ds s s'.
+
+Theorem C12_w_length_ok :
+  forall s c rest n,
+    ds s = c :: rest -> has_args 1 s -> coll_length c = Some n -> room s rest ->
+    exists s', w_length s = ROk tt s' /\ ds s' = CInt (Z.of_nat n) :: rest /\ only_ds s s'.
+Proof. exact (@w_length_ok). Qed.
+Check C12_w_length_ok :
+  forall s c rest n,
+    ds s = c :: rest -> has_args 1 s -> coll_length c = Some n -> room s rest ->
+    exists s', w_length s = ROk tt s' /\ ds s' = CInt (Z.of_nat n) :: rest /\ only_ds s s'.
+
+Theorem C12_w_sort_ok :
+  forall s c rest v,
+    ds s = c :: rest -> has_args 1 s -> value c = CVec v -> room s rest ->
+    exists s', w_sort s = ROk tt s' /\ ds s' = CVec (sort_cells v) :: rest /\ only_ds s s'.
+Proof. exact (@w_sort_ok). Qed.
+Check C12_w_sort_ok :
+  forall s c rest v,
+    ds s = c :: rest -> has_args 1 s -> value c = CVec v -> room s rest ->
+    exists s', w_sort s = ROk tt s' /\ ds s' = CVec (sort_cells v) :: rest /\ only_ds s s'.
+
+Theorem C12_w_slice_ok :
+  forall s e b c rest v st en,
+    ds s = e :: b :: c :: rest -> has_args 3 s ->
+    value e = CInt en -> in_isize en = true -> value b = CInt st -> in_isize st = true ->
+    value c = CVec v -> room s rest ->
+    exists s', w_slice s = ROk tt s' /\ ds s' = CVec (slice_list v st en) :: rest /\ only_ds s s'.
+Proof. exact (@w_slice_ok). Qed.
+Check C12_w_slice_ok :
+  forall s e b c rest v st en,
+    ds s = e :: b :: c :: rest -> has_args 3 s ->
+    value e = CInt en -> in_isize en = true -> value b = CInt st -> in_isize st = true ->
+    value c = CVec v -> room s rest ->
+    exists s', w_slice s = ROk tt s' /\ ds s' = CVec (slice_list v st en) :: rest /\ only_ds s s'.
+
+Theorem C12_w_slice_str_ok :
+  forall s e b c rest t st en,
+    ds s = e :: b :: c :: rest -> has_args 3 s ->
+    value e = CInt en -> in_isize en = true -> value b = CInt st -> in_isize st = true ->
+    value c = CStr t -> room s rest ->
+    exists s', w_slice s = ROk tt s' /\
+               ds s' = CStr (str_concat (slice_list (str_chars t) st en)) :: rest /\ only_ds s s'.
+Proof. exact (@w_slice_str_ok). Qed.
+Check C12_w_slice_str_ok :
+  forall s e b c rest t st en,
+    ds s = e :: b :: c :: rest -> has_args 3 s ->
+    value e = CInt en -> in_isize en = true -> value b = CInt st -> in_isize st = true ->
+    value c = CStr t -> room s rest ->
+    exists s', w_slice s = ROk tt s' /\
+               ds s' = CStr (str_concat (slice_list (str_chars t) st en)) :: rest /\ only_ds s s'.
+
+(* concat / join *)
+Theorem C12_w_concat_strings_ok :
+  forall s c rest ts,
+    ds s = c :: rest -> has_args 1 s -> value c = CVec (map CStr ts) -> room s rest ->
+    exists s', w_concat s = ROk tt s' /\ ds s' = CStr (String.concat EmptyString ts) :: rest /\ only_ds s s'.
+Proof. exact (@w_concat_strings_ok). Qed.
+Check C12_w_concat_strings_ok :
+  forall s c rest ts,
+    ds s = c :: rest -> has_args 1 s -> value c = CVec (map CStr ts) -> room s rest ->
+    exists s', w_concat s = ROk tt s' /\ ds s' = CStr (String.concat EmptyString ts) :: rest /\ only_ds s s'.
+
+Theorem C12_w_join_strings_ok :
+  forall s sp c rest sep ts,
+    ds s = sp :: c :: rest -> has_args 2 s -> value sp = CStr sep -> value c = CVec (map CStr ts) -> room s rest ->
+    exists s', w_join s = ROk tt s' /\ ds s' = CStr (String.concat sep ts) :: rest /\ only_ds s s'.
+Proof. exact (@w_join_strings_ok). Qed.
+Check C12_w_join_strings_ok :
+  forall s sp c rest sep ts,
+    ds s = sp :: c :: rest -> has_args 2 s -> value sp = CStr sep -> value c = CVec (map CStr ts) -> room s rest ->
+    exists s', w_join s = ROk tt s' /\ ds s' = CStr (String.concat sep ts) :: rest /\ only_ds s s'.
+
+(* collect / unbox are inverse *)
+Theorem C12_w_collect_ok :
+  forall s c items rest,
+    ds s = c :: (items ++ rest)%list -> value c = CInt (Z.of_nat (length items)) ->
+    in_usize (Z.of_nat (length items)) = true -> has_args (S (length items)) s -> room s rest ->
+    exists s', w_collect s = ROk tt s' /\ ds s' = CVec (rev items) :: rest /\ only_ds s s'.
+Proof. exact (@w_collect_ok). Qed.
+Check C12_w_collect_ok :
+  forall s c items rest,
+    ds s = c :: (items ++ rest)%list -> value c = CInt (Z.of_nat (length items)) ->
+    in_usize (Z.of_nat (length items)) = true -> has_args (S (length items)) s -> room s rest ->
+    exists s', w_collect s = ROk tt s' /\ ds s' = CVec (rev items) :: rest /\ only_ds s s'.
+
+Theorem C12_w_unbox_ok :
+  forall s c rest v,
+    ds s = c :: rest -> has_args 1 s -> value c = CVec v ->
+    (forall n, (n < length v)%nat -> limit_reached (stack_limit s) (length rest + n) = false) ->
+    exists s', w_unbox s = ROk tt s' /\ ds s' = (rev v ++ rest)%list /\ only_ds s s'.
+Proof. exact (@w_unbox_ok). Qed.
+Check C12_w_unbox_ok :
+  forall s c rest v,
+    ds s = c :: rest -> has_args 1 s -> value c = CVec v ->
+    (forall n, (n < length v)%nat -> limit_reached (stack_limit s) (length rest + n) = false) ->
+    exists s', w_unbox s = ROk tt s' /\ ds s' = (rev v ++ rest)%list /\ only_ds s s'.
+
+Theorem C12_collect_unbox :
+  forall s c items rest,
+    ds s = c :: (items ++ rest)%list -> value c = CInt (Z.of_nat (length items)) ->
+    in_usize (Z.of_nat (length items)) = true -> has_args (S (length items)) s -> room s rest ->
+    (forall n, (n < length items)%nat -> limit_reached (stack_limit s) (length rest + n) = false) ->
+    exists s', (w_collect ;; w_unbox) s = ROk tt s' /\ ds s' = (items ++ rest)%list /\ only_ds s s'.
+Proof. exact (@collect_unbox). Qed.
+Check C12_collect_unbox :
+  forall s c items rest,
+    ds s = c :: (items ++ rest)%list -> value c = CInt (Z.of_nat (length items)) ->
+    in_usize (Z.of_nat (length items)) = true -> has_args (S (length items)) s -> room s rest ->
+    (forall n, (n < length items)%nat -> limit_reached (stack_limit s) (length rest + n) = false) ->
+    exists s', (w_collect ;; w_unbox) s = ROk tt s' /\ ds s' = (items ++ rest)%list /\ only_ds s s'.
+
+Theorem C12_unbox_collect :
+  forall s c rest v,
+    ds s = c :: rest -> has_args 1 s -> value c = CVec v -> in_usize (Z.of_nat (length v)) = true ->
+    (forall n, (n <= length v)%nat -> limit_reached (stack_limit s) (length rest + n) = false) ->
+    exists s', (w_unbox ;; push_data (cnat (length v)) ;; w_collect) s = ROk tt s' /\
+               ds s' = CVec v :: rest /\ only_ds s s'.
+Proof. exact (@unbox_collect). Qed.
+Check C12_unbox_collect :
+  forall s c rest v,
+    ds s = c :: rest -> has_args 1 s -> value c = CVec v -> in_usize (Z.of_nat (length v)) = true ->
+    (forall n, (n <= length v)%nat -> limit_reached (stack_limit s) (length rest + n) = false) ->
+    exists s', (w_unbox ;; push_data (cnat (length v)) ;; w_collect) s = ROk tt s' /\
+               ds s' = CVec v :: rest /\ only_ds s s'.
+
+(* literals *)
+Theorem C12_w_map_end_ok :
+  forall s items rest sp,
+    special s = length rest :: sp -> (ss_ptr (cx s) < length (special s))%nat ->
+    ds s = (items ++ rest)%list -> has_args (length items) s ->
+    Nat.modulo (length items) 2 = 0%nat -> room s rest ->
+    exists s', w_map_end s = ROk tt s' /\ ds s' = CMap (pairs_insert (rev items) []) :: rest /\
+               special s' = sp /\ only_ds (set_special s sp) s'.
+Proof. exact (@w_map_end_ok). Qed.
+Check C12_w_map_end_ok :
+  forall s items rest sp,
+    special s = length rest :: sp -> (ss_ptr (cx s) < length (special s))%nat ->
+    ds s = (items ++ rest)%list -> has_args (length items) s ->
+    Nat.modulo (length items) 2 = 0%nat -> room s rest ->
+    exists s', w_map_end s = ROk tt s' /\ ds s' = CMap (pairs_insert (rev items) []) :: rest /\
+               special s' = sp /\ only_ds (set_special s sp) s'.
+
+Theorem C12_w_vec_end_ok :
+  forall s items rest sp,
+    special s = length rest :: sp -> (ss_ptr (cx s) < length (special s))%nat ->
+    ds s = (items ++ rest)%list -> has_args (length items) s -> room s rest ->
+    exists s', w_vec_end s = ROk tt s' /\ ds s' = CVec (rev items) :: rest /\ special s' = sp /\
+               only_ds (set_special s sp) s'.
+Proof. exact (@w_vec_end_ok). Qed.
+Check C12_w_vec_end_ok :
+  forall s items rest sp,
+    special s = length rest :: sp -> (ss_ptr (cx s) < length (special s))%nat ->
+    ds s = (items ++ rest)%list -> has_args (length items) s -> room s rest ->
+    exists s', w_vec_end s = ROk tt s' /\ ds s' = CVec (rev items) :: rest /\ special s' = sp /\
+               only_ds (set_special s sp) s'.
+
+(* foreach: the loop counter words push the i-th binding / element *)
+Theorem C12_w_foreach_init_ok :
+  forall s c rest n,
+    ds s = c :: rest -> has_args 1 s -> coll_size c = Some (S n) ->
+    limit_reached (stack_limit s) (S (length (ds s))) = false ->
+    exists s', w_foreach_init s = ROk tt s' /\
+               ds s' = CInt 0 :: CInt (Z.of_nat (S n)) :: c :: rest /\ only_ds s s'.
+Proof. exact (@w_foreach_init_ok). Qed.
+Check C12_w_foreach_init_ok :
+  forall s c rest n,
+    ds s = c :: rest -> has_args 1 s -> coll_size c = Some (S n) ->
+    limit_reached (stack_limit s) (S (length (ds s))) = false ->
+    exists s', w_foreach_init s = ROk tt s' /\
+               ds s' = CInt 0 :: CInt (Z.of_nat (S n)) :: c :: rest /\ only_ds s s'.
+
+Theorem C12_w_foreach_init_empty :
+  forall s c rest,
+    ds s = c :: rest -> has_args 1 s -> coll_size c = Some 0%nat ->
+    limit_reached (stack_limit s) (S (length rest)) = false ->
+    exists s', w_foreach_init s = ROk tt s' /\ ds s' = CInt 0 :: CInt 0 :: rest /\ only_ds s s'.
+Proof. exact (@w_foreach_init_empty). Qed.
+Check C12_w_foreach_init_empty :
+  forall s c rest,
+    ds s = c :: rest -> has_args 1 s -> coll_size c = Some 0%nat ->
+    limit_reached (stack_limit s) (S (length rest)) = false ->
+    exists s', w_foreach_init s = ROk tt s' /\ ds s' = CInt 0 :: CInt 0 :: rest /\ only_ds s s'.
+
+Theorem C12_w_counter_map_ok :
+  forall n s l m i k v,
+    nth_error (active_loops s) n = Some l -> value (l_items l) = CMap m ->
+    l_start l = Z.of_nat i -> nth_error m i = Some (k, v) ->
+    limit_reached (stack_limit s) (S (length (ds s))) = false ->
+    exists s', w_counter n s = ROk tt s' /\ ds s' = v :: k :: ds s /\ only_ds s s'.
+Proof. exact (@w_counter_map_ok). Qed.
+Check C12_w_counter_map_ok :
+  forall n s l m i k v,
+    nth_error (active_loops s) n = Some l -> value (l_items l) = CMap m ->
+    l_start l = Z.of_nat i -> nth_error m i = Some (k, v) ->
+    limit_reached (stack_limit s) (S (length (ds s))) = false ->
+    exists s', w_counter n s = ROk tt s' /\ ds s' = v :: k :: ds s /\ only_ds s s'.
+
+Theorem C12_w_counter_vec_ok :
+  forall n s l v i x,
+    nth_error (active_loops s) n = Some l -> value (l_items l) = CVec v ->
+    l_start l = Z.of_nat i -> nth_error v i = Some x -> room s (ds s) ->
+    exists s', w_counter n s = ROk tt s' /\ ds s' = x :: ds s /\ only_ds s s'.
+Proof. exact (@w_counter_vec_ok). Qed.
+Check C12_w_counter_vec_ok :
+  forall n s l v i x,
+    nth_error (active_loops s) n = Some l -> value (l_items l) = CVec v ->
+    l_start l = Z.of_nat i -> nth_error v i = Some x -> room s (ds s) ->
+    exists s', w_counter n s = ROk tt s' /\ ds s' = x :: ds s /\ only_ds s s'.
+
+(* collections are values: these words change nothing but the data stack (and the log);
+   whatever is still referenced from a variable, a loop or deeper in the stack is untouched *)
+Theorem C12_only_ds_heap :
+  forall s s', only_ds s s' -> heap s' = heap s.
+Proof. exact (@only_ds_heap). Qed.
+Check C12_only_ds_heap :
+  forall s s', only_ds s s' -> heap s' = heap s.
+
+Theorem C12_only_ds_loops :
+  forall s s', only_ds s s' -> loops s' = loops s.
+Proof. exact (@only_ds_loops). Qed.
+Check C12_only_ds_loops :
+  forall s s', only_ds s s' -> loops s' = loops s.
+
+Theorem C12_only_ds_rs :
+  forall s s', only_ds s s' -> rs s' = rs s.
+Proof. exact (@only_ds_rs). Qed.
+Check C12_only_ds_rs :
+  forall s s', only_ds s s' -> rs s' = rs s.
+
+(* ================================================================== *)
+(* non-vacuity                                                         *)
+(* ================================================================== *)
+Definition ex_map : list (cell * cell) :=
+  assoc_insert (assoc_insert (assoc_insert (assoc_insert [] (CInt 1) (CStr "a")) (CStr "1") (CInt 2))
+                             (CTag [(CStr "t", CNil)] (CInt 1)) (CStr "b"))
+               (CVec [CFlag true; CReal 0]) (CMap [(CNil, CNil)]).
+
+(* a map with keys of four types: the tagged 1 replaced the binding of 1, "1" did not collide *)
+Example C12_map_nonvacuous :
+  map_ok ex_map /\ length ex_map = 3 /\
+  assoc_find ex_map (CInt 1) = Some (CStr "b") /\ assoc_find ex_map (CStr "1") = Some (CInt 2) /\
+  assoc_find ex_map (CVec [CFlag true; CReal (2 ^ 63)]) = Some (CMap [(CNil, CNil)]) /\
+  assoc_find (assoc_remove ex_map (CInt 1)) (CInt 1) = None.
+Proof.
+  split; [| vm_compute; repeat split; reflexivity].
+  unfold ex_map.
+  apply insert_ok; [apply insert_ok; [apply insert_ok; [apply insert_ok |..] |..] |..]; ok_tac.
+Qed.
+
+Example C12_vec_nonvacuous :
+  relative_index 3 (-1) = Some 2 /\ relative_index 3 (-4) = None /\ relative_index 3 3 = None /\
+  slice_list [CInt 1; CInt 2; CInt 3] (-2) 100 = [CInt 2; CInt 3] /\
+  slice_list [CInt 1; CInt 2; CInt 3] 2 1 = [] /\
+  sort_cells [CStr "b"; CInt 2; CTag [] (CInt 1); CNil; CInt 1] = [CNil; CTag [] (CInt 1); CInt 1; CInt 2; CStr "b"].
+Proof. vm_compute. repeat split; reflexivity. Qed.
+
+(* Not covered here: concat / join on vectors that are not flat vectors of strings (nested vectors,
+   elements rendered by the printer); the character model of strings behind `slice` on a string is
+   the model's str_chars / str_concat (C12_w_slice_str_ok), no further law about it is stated;
+   type errors of the SECOND index argument of slice.  Everything else asked for in C12 is a theorem above. *)
